@@ -1,14 +1,14 @@
 CONSTANTS
-  Alphabet <- LB
-  Core <- LBCore
-  Mid <- LBCore
+  Alphabet <- LM
+  Core <- LMCore
+  Mid <- LMCore
   MaxAll = 3
   MaxMid = 3
   MaxCore = 3
-  Wrappers <- NoWrap
-  MaxWrap = 0
-  MaxDeep = 0
-  DeepWraps = 0
+  Wrappers <- WrapM
+  MaxWrap = 1
+  MaxDeep = 3
+  DeepWraps = 1
 SPECIFICATION Spec
 INVARIANT Bounded
 INVARIANT Shape
